@@ -12,7 +12,8 @@
 (*  d+1; subtract lam_0 = E_0^T M E_0.                                     *)
 (* ====================================================================== *)
 Require Import Field Ring Arith Lia List Bool.
-From TK Require Import Mat_Sums Mat_Core Lle_Model Lle_Spec Spectral_KyFan.
+From TK Require Import Mat_Sums Mat_Core Lle_Model Lle_Spec Lle_Proof_Triplets Lle_Proof_Lle Lle_Proof_Ltsa
+                       Lle_Proof_Embed Spectral_KyFan.
 Import ListNotations.
 
 Section KyFanCentred.
@@ -75,6 +76,39 @@ Section KyFanCentred.
     replace (lam 0%nat + cost N d M Y + - lam 0%nat) with (cost N d M Y) in HK by ring.
     exact HK.
   Qed.
+  (* columns 1.. of an orthonormal E whose column 0 is a non-zero constant sum to zero *)
+  Lemma cols_centred_of_const_first N d (E : mat) c0 :
+    meq N N (mmul N (mtrans E) E) mI -> (forall i, i < N -> E i 0%nat = c0) -> c0 <> 0 -> 1 + d <= N ->
+    centred_cols N d (select_smallest 1 d E).
+  Proof.
+    intros HE Hc Hc0 Hd c Hcd.
+    rewrite (sumn_ext N _ (fun i => E i (1 + c)%nat)) by (intros; apply select_smallest_entry).
+    pose proof (HE 0%nat (1 + c)%nat ltac:(lia) ltac:(lia)) as H. unfold mmul, mtrans, mI in H.
+    rewrite (sumn_ext N _ (fun i => c0 * E i (1 + c)%nat)) in H by (intros i Hi; rewrite Hc by assumption; ring).
+    rewrite sumn_mul_l in H. rewrite delta_neq in H by lia.
+    replace (sumn N (fun i => E i (1 + c)%nat)) with (/ c0 * (c0 * sumn N (fun i => E i (1 + c)%nat)))
+      by (field; assumption).
+    rewrite H. ring.
+  Qed.
+
+  (* the property's optimality clause in one statement: the embedding the selection returns has
+     orthonormal centred columns and its cost is minimal among ALL such Y *)
+  Theorem embedding_optimal_gen N d (M E : mat) (lam : vec) c0 :
+    eig_contract N M E lam ->
+    meq N N (mmul N E (mtrans E)) mI ->
+    (forall i, i < N -> E i 0%nat = c0) -> c0 <> 0 ->
+    ascending N lam -> 1 + d <= N ->
+    orthonormal_cols N d (select_smallest 1 d E) /\
+    centred_cols N d (select_smallest 1 d E) /\
+    forall Y, orthonormal_cols N d Y -> centred_cols N d Y ->
+              fle (cost N d M (select_smallest 1 d E)) (cost N d M Y).
+  Proof.
+    intros HC HEEt Hc Hc0 Hasc Hd. split; [|split].
+    - apply (embed_orthonormal N d 1 M E lam HC). lia.
+    - apply (cols_centred_of_const_first N d E c0 (proj1 HC) Hc Hc0 Hd).
+    - intros Y HY HYc. rewrite (embed_cost N d 1 M E lam HC) by lia.
+      apply (ky_fan_min_centred_gen N d M E Y lam c0); assumption.
+  Qed.
 End KyFanCentred.
 
 From Coq Require Import ZArith QArith Qcanon.
@@ -96,4 +130,19 @@ Theorem ky_fan_min_centred :
 Proof.
   intros N d M E Y lam c0 HC HE Hc Hasc HY HYc Hd.
   exact (@ky_fan_min_centred_gen Qc QcOps QcField QcOrdered N d M E Y lam c0 HC HE Hc Hasc HY HYc Hd).
+Qed.
+
+Theorem embedding_optimal :
+  forall (N d : nat) (M E : mat Qc) (lam : vec Qc) (c0 : Qc),
+    eig_contract N M E lam ->
+    meq N N (mmul N E (mtrans E)) mI ->
+    (forall i, i < N -> E i 0 = c0) -> c0 <> 0%F ->
+    (forall i j, i <= j -> j < N -> qle (lam i) (lam j)) -> 1 + d <= N ->
+    orthonormal_cols N d (select_smallest 1 d E) /\
+    centred_cols N d (select_smallest 1 d E) /\
+    forall Y, orthonormal_cols N d Y -> centred_cols N d Y ->
+              qle (cost N d M (select_smallest 1 d E)) (cost N d M Y).
+Proof.
+  intros N d M E lam c0 HC HE Hc Hc0 Hasc Hd.
+  exact (@embedding_optimal_gen Qc QcOps QcField QcOrdered N d M E lam c0 HC HE Hc Hc0 Hasc Hd).
 Qed.
